@@ -170,6 +170,17 @@ def remove_titles_from_dtype(dtype):
 
 
 @export
+def dtype_layout(dtype):
+    """Return (field offsets, itemsize) of a structured dtype.
+
+    Two dtypes with equal fields can still differ in memory layout (padding, explicit offsets).
+
+    """
+    dtype = np.dtype(dtype)
+    return tuple(dtype.fields[name][1] for name in dtype.names or ()), dtype.itemsize
+
+
+@export
 def merged_dtype(dtypes):
     result = {}
     for x in dtypes:
